@@ -10,6 +10,8 @@
 #[cfg(kani)]
 mod tok;
 #[cfg(kani)]
+mod fstub;
+#[cfg(kani)]
 mod c02;
 #[cfg(kani)]
 mod c03;
@@ -19,6 +21,8 @@ mod c11;
 mod c12;
 #[cfg(kani)]
 mod c13;
+#[cfg(kani)]
+mod c15;
 #[cfg(kani)]
 mod c17;
 #[cfg(kani)]
